@@ -150,6 +150,7 @@ struct C20 : Harness {
             for (int i = 0; i < 200; ++i) { x ^= x << 13; x ^= x >> 7; x ^= x << 17; blocks.push_back((size_t)(x % (want_len / bs))); }
             for (size_t b : blocks) {
                 if (!res.empty() || !f) break;
+                if ((b + 1) * (size_t)bs > want_len) continue;     // (an input barely over 4 GiB has no block at or after the 2^32 line)
                 uint8_t got[16], zero[16] = {0}, wantb[16];
                 if (fseeko(f, (off_t)(b * bs), SEEK_SET) != 0 || fread(got, 1, (size_t)bs, f) != (size_t)bs) { res = "cannot read block " + std::to_string(b) + " of the output"; break; }
                 if (tool == 0) {
